@@ -15,7 +15,7 @@ PROPERTY = 'C10'
 META = {
     'level': 'exploration',
     'technique': 'runtime invariants (icontract class invariant on the symbol sources + conservation check with counting iterables) and a limit oracle over every parser machine x limit value x limit form x inner length field perturbation',
-    'text': 'Each parser machine of the library (typed scalars, SSTRING, STRING, IPADDR, IFACEADDRS, EPATH plain/padded/single/route, status, typed data per type, CPF and every item parser, '
+    'text': 'Repeat counts are also run under limits below, at and above the count (octets, words, the encapsulation payload) with more input pending: completing successfully with fewer runs than the repeat count is a violation. Each parser machine of the library (typed scalars, SSTRING, STRING, IPADDR, IFACEADDRS, EPATH plain/padded/single/route, status, typed data per type, CPF and every item parser, '
             'Unconnected Send, identity/service/legacy items, send_data, register, the CIP command parsers, every registered request/reply machine of Object/Message_Router/Logix and '
             'Connection_Manager, and the frame machine) receives a valid encoding plus a tail, inside an enclosing machine whose symbol limit is supplied as an integer, as a data path and as a '
             'callable at 0, 1, half, len-1, len, len+1 and len+tail; inner length/count fields are also set shorter and longer than their content. Outcomes are classified success / NonTerminal / '
@@ -27,7 +27,7 @@ LEVEL = META['level']
 RULE = ('a case = one (machine, encoding, tail, limit value, limit form) run; distinct by that tuple; non-trivial = the limit is smaller than encoding+tail or an inner length field was perturbed')
 ASSUMPTIONS = ['the limit is imposed by an enclosing dfa (limit=...) around the machine under test, the way CPF items and CIP command parsers are limited in the library']
 REQUIRED = ['runs', 'outcome:success', 'outcome:nonterminal', 'outcome:limit-assertion', 'form:int', 'form:path', 'form:callable', 'limit:0', 'limit:cuts-element', 'limit:exact', 'limit:beyond',
-            'monitor:conservation', 'monitor:invariant-evaluations', 'monitor:limit-respected', 'inner:shorter', 'inner:longer', 'repeat:exact', 'machines:distinct>=25']
+            'monitor:conservation', 'monitor:invariant-evaluations', 'monitor:limit-respected', 'inner:shorter', 'inner:longer', 'repeat:exact', 'repeat:under-limit', 'machines:distinct>=25']
 TIMEOUT = {'quick': 300, 'thorough': 1800}
 SOFT = {'quick': 30, 'thorough': 420}
 
@@ -319,6 +319,44 @@ def _run(ctx):
             ctx.case(('repeat', n, rounds))
             if source.sent != n or got != n or not ok:
                 ctx.violation('repeat-count-not-exact', 'octets(repeat=%d) consumed %d symbols, stored %d, terminal=%r' % (n, source.sent, got, ok), {'repeat': n})
+        # repeat count x limit: with a limit below the repeat count (and more input pending behind it) the machine may fail, but it may
+        # not complete successfully -- that would be fewer runs of the sub-grammar than the repeat count says
+        for n in (2, 3, 5, 8):
+            for lim in range(0, n + 2):
+                for kind in ('octets', 'words', 'enip'):
+                    src_bytes = bytes(range(1, 41))
+                    if kind == 'enip':
+                        import struct as _st
+                        src_bytes = _st.pack('<HHII8sI', 0x6F, n, 1, 0, b'12345678', 0) + src_bytes
+                        m = env.parser.enip_machine(limit=24 + lim, terminal=True)
+                        unit = 1
+                    elif kind == 'words':
+                        m = env.parser.words(context='oct', repeat=n, limit=lim * 2, terminal=True)
+                        unit = 2
+                    else:
+                        m = env.parser.octets(context='oct', repeat=n, limit=lim, terminal=True)
+                        unit = 1
+                    counter = Counting(src_bytes)
+                    source = env.cpppo.peekable(counter)
+                    source._verif = [counter]
+                    data = env.cpppo.dotdict()
+                    ok, exc = False, None
+                    try:
+                        with m:
+                            for _ in m.run(source=source, data=data):
+                                pass
+                            ok = m.terminal
+                    except Exception as e:
+                        exc = e
+                    got = len(data.get('enip.input' if kind == 'enip' else 'oct.input', b''))
+                    ctx.count('repeat:under-limit')
+                    ctx.case(('repeat-limit', kind, n, lim, rounds))
+                    wit = {'machine': kind, 'repeat': n, 'limit_in_elements': lim}
+                    if ok and exc is None and got not in (n * unit, n):
+                        ctx.violation('repeat-count-not-exact', '%s(repeat=%d) under a limit of %d elements completed successfully with %d elements stored (consumed %d symbols)' % (
+                            kind, n, lim, got, source.sent), wit)
+                    elif ok and exc is None and lim < n:
+                        ctx.violation('limit-exceeded-on-success', '%s(repeat=%d) completed successfully under a limit of %d elements (consumed %d symbols)' % (kind, n, lim, source.sent), wit)
     ctx.count('monitor:invariant-evaluations', STATS['evals'])
     if len(seen_machines) >= 25:
         ctx.count('machines:distinct>=25')
